@@ -293,6 +293,27 @@ const STRS: [&str; 12] = [
     "\"abc\"", "\"\"", "\"é\"", "\"日本語テキスト\"", "\"a😀b\"", "\"x-y-z\"", "\"  pad  \"", "\"ÀÉÎõü\"", "\"a\\u0301\"", "\"0123456789\"", "\"\\ud800\"", "\"ab\".repeat(9)",
 ];
 const ARRS: [&str; 8] = ["[1, 2, 3]", "[]", "[1, [2, [3, [4]]]]", "[\"b\", \"a\", \"é\"]", "[1, , 3]", "[{ v: 1 }, { v: 2 }]", "Array.from(\"日本\")", "[0, -0, NaN, undefined, null]"];
+const LONGS: [&str; 5] = [
+    "Array.from({ length: 21 }, (_: any, i: number) => (i * 7) % 11)",
+    "Array.from({ length: 33 }, (_: any, i: number) => (i * 13) % 17)",
+    "Array.from({ length: 64 }, (_: any, i: number) => 64 - i)",
+    "Array.from({ length: 100 }, (_: any, i: number) => (i * 37) % 101)",
+    "Array.from({ length: 40 }, (_: any, i: number) => ({ v: (i * 5) % 7 }))",
+];
+const CMPS: [&str; 12] = [
+    "() => 1", "() => -1", "(a: any, b: any) => (((Number(a) || 0) * 7 + (Number(b) || 0) * 13) % 5) - 2", "() => NaN", "(a: any, b: any) => a < b ? 1 : 1",
+    "(() => { let t = 0; return () => (t++ % 3) - 1; })()", "() => Math.random() - 0.5", "(a: any, b: any) => { if (a === b) { throw new Error(\"cmp\"); } return 0; }",
+    "() => undefined as any", "() => ({} as any)", "() => \"1\" as any", "(a: any, b: any) => b - a",
+];
+const HOOKED: [&str; 7] = [
+    "({ valueOf() { return {}; }, toString() { (this as any).x = 1; return \"7\"; } } as any)",
+    "({ [Symbol.toPrimitive]() { (this as any).y = 2; return 3; } } as any)",
+    "({ valueOf() { (this as any).z = 1; delete (this as any).z; return 4; } } as any)",
+    "({ toString() { return {}; }, valueOf() { return {}; } } as any)",
+    "({ valueOf() { Object.defineProperty(this, \"valueOf\", { value: () => 9 }); return 5; }, toString() { return \"s\"; } } as any)",
+    "({ toString() { Object.setPrototypeOf(this, null); return \"np\"; } } as any)",
+    "({ get valueOf() { (this as any).g = 1; return () => 6; } } as any)",
+];
 const NUMS: [&str; 16] = ["0", "-0", "1", "255", "0.5", "-1.5", "NaN", "Infinity", "-Infinity", "2 ** 53", "-(2 ** 53)", "2 ** 63", "-(2 ** 63)", "1e21", "1e-7", "123.456"];
 
 /// Calls of natives with boundary arguments: `@S` string, `@A` array, `@N` number, `@I` index-like,
@@ -346,6 +367,16 @@ const NATIVE_CALLS: &[&str] = &[
     "JSON.stringify(@S)", "JSON.stringify({ a: [@N, @S, @A] }, (k: string, v: any) => v)", "JSON.stringify(@A, [@S, @I] as any)", "JSON.stringify({ toJSON: () => @N })", "JSON.parse(@S, (k: string, v: any) => v)", "JSON.parse(\"[1e999, -1e999, 1e-999]\")",
     "JSON.parse(\"\\\"\\\\ud800\\\"\")", "JSON.stringify(\"\\ud800\")", "JSON.stringify({ [@S]: @N })", "JSON.stringify([undefined, () => 1, Symbol(\"s\")])", "JSON.rawJSON ? JSON.rawJSON(@S as any) : 0", "JSON.isRawJSON ? JSON.isRawJSON(@A) : 0",
     "new RegExp(@S, \"g\").exec(@S)", "new RegExp(\"(?<n>\" + @S + \")\")", "@S.replace(new RegExp(@S, \"g\"), \"$&$1$<n>$`$'\")", "@S.replace(/(?<c>.)/gu, \"$<c>$<c>\")", "@S.replaceAll(/./g, (m: string, o: number) => m + o)", "@S.split(/(.)/, @I)",
+    // catalogue 3: callbacks with ill-behaved results over inputs past small-size fast paths (@L long
+    // array, @C comparator), coercion hooks that write to their receiver (@O), prototype cycles
+    "@L.sort(@C).length", "@L.toSorted(@C).length", "@L.sort(@C).slice(0, 3)", "@L.map(String).sort(@C).length", "@L.concat(@L).sort(@C).length", "@L.sort().length", "@L.toSorted().slice(-2)",
+    "@L.findLastIndex((x: any) => x === @N)", "@L.reduceRight((p: any, c: any) => p + c, 0)", "@L.flatMap((x: any) => [x, [x]]).length", "@L.join(@S).length", "@L.indexOf(@N, @I)", "@L.with(@I, 1).length", "@L.toSpliced(@I, @I, 1, 2).length",
+    "+@O", "`${@O}`", "@O + \"\"", "@O < 1", "[@O, @O].join()", "String(@O)", "Number(@O)", "@O == 7", "({ a: 1 } as any)[@O]", "new Date(@O as any).getTime()", "Math.max(@O as any, 1)", "\"abc\".slice(@O as any)", "[1, 2, 3].at(@O as any)", "@O * @O", "JSON.stringify(@O)", "isNaN(@O as any)", "parseInt(@O as any)",
+    "((a: any, b: any) => { try { Object.setPrototypeOf(a, b); Object.setPrototypeOf(b, a); } catch (e: any) { return \"refused:\" + e.name; } return String(a.nope) + (\"nope\" in a); })({}, {})",
+    "((a: any) => { try { Object.setPrototypeOf(a, a); } catch (e: any) { return \"refused:\" + e.name; } return String(a.nope); })({})",
+    "((a: any, b: any, c: any) => { try { a.__proto__ = b; b.__proto__ = c; c.__proto__ = a; } catch (e: any) { return \"refused:\" + e.name; } return String(a.nope) + Object.keys(a).length; })({}, {}, {})",
+    "((a: any, b: any) => { try { Reflect.setPrototypeOf(a, b); Reflect.setPrototypeOf(b, a); } catch (e: any) { return \"refused:\" + e.name; } return String(a.toString === undefined); })({}, {})",
+    "((a: any, b: any) => { try { Object.setPrototypeOf(a, b); Object.setPrototypeOf(b, a); } catch (e: any) { return \"refused:\" + e.name; } return a instanceof Array; })({}, {})",
     "/[/.exec ? 1 : 0", "new RegExp(\"[\" + @S + \"]\").test(@S)", "new RegExp(\"a{\" + @I + \"}\").test(\"aaa\")", "new RegExp(\"\\\\\" + @I).test(@S)", "/(?:)/.test(@S)", "/\\u{1F600}/u.test(@S)", "@S.match(/\\p{L}/gu)",
 ];
 
@@ -366,6 +397,9 @@ pub fn native_args_program(rng: &mut Rng) -> String {
                 b'N' => NUMS[rng.below(NUMS.len())],
                 b'I' => IDX[rng.below(IDX.len())],
                 b'Z' => SIZE[rng.below(SIZE.len())],
+                b'L' => LONGS[rng.below(LONGS.len())],
+                b'C' => CMPS[rng.below(CMPS.len())],
+                b'O' => HOOKED[rng.below(HOOKED.len())],
                 _ => "0",
             };
             call.push('(');
